@@ -315,6 +315,7 @@ def coq_event(e) -> str:
 class Check(PropertyCheck):
     id = 'C19'
     props = ['C19.v']
+    static_targets = ['theories/Lemmas/ConfigL.vo']
     coq_header = 'From Coq Require Import ZArith List.\nFrom Furax Require Import Model.Config.\nImport ListNotations.\nOpen Scope Z_scope.'
     trusted = [
         "CPython contextvars semantics as modelled: one binding per thread/context, ContextVar.set returns a token "
